@@ -10,10 +10,10 @@ PROPERTY = 'C16'
 FUNCTIONS = ['emd._cycles_support.map_* (12 maps)', 'emd._cycles_support.project_* (6 projections)',
              'emd.cycles.get_subset_vector', 'emd.cycles.get_chain_vector']
 BOUNDS = {
-    'quick': 'cycle vectors over N <= 5 samples with arbitrary gaps/cycle lengths (symbolic per-sample gap/break flags, '
+    'quick': 'cycle vectors over N <= 6 samples with arbitrary gaps/cycle lengths (symbolic per-sample gap/break flags, '
              'pruned by the representation invariant) x every boolean selection of their cycles; plus every selection '
              'vector of length <= 8 over one-sample cycles; all indices of every level; symbolic real values for the projections',
-    'thorough': 'N <= 6 samples; selection vectors of length <= 12 (4096 structures)',
+    'thorough': 'N <= 7 samples; selection vectors of length <= 12 (4096 structures)',
 }
 OUTSIDE = 'longer recordings / selections; augmented-cycle maps (need phase)'
 ASSUMPTIONS = ["'none' is accepted as either None or -1 (the statement does not fix the encoding)",
@@ -29,10 +29,10 @@ BUDGET_S = {'quick': 120, 'thorough': 900}
 def configs(tier):
     if tier == 'quick':
         return [('structure-N3', {'kind': 'structure', 'N': 3}), ('structure-N4', {'kind': 'structure', 'N': 4}),
-                ('structure-N5', {'kind': 'structure', 'N': 5}),
+                ('structure-N5', {'kind': 'structure', 'N': 5}), ('structure-N6', {'kind': 'structure', 'N': 6}),
                 ('selection-K8', {'kind': 'selection', 'K': 8}), ('selection-K3', {'kind': 'selection', 'K': 3})]
     return [('structure-N4', {'kind': 'structure', 'N': 4}), ('structure-N5', {'kind': 'structure', 'N': 5}),
-            ('structure-N6', {'kind': 'structure', 'N': 6}),
+            ('structure-N6', {'kind': 'structure', 'N': 6}), ('structure-N7', {'kind': 'structure', 'N': 7}),
             ('selection-K8', {'kind': 'selection', 'K': 8}), ('selection-K12', {'kind': 'selection', 'K': 12})]
 
 
